@@ -23,5 +23,7 @@ def run(ctx):
     SM.fail_unrecognised(ctx, "C02.R2", M)
     SM.c02_content_range(ctx, M)
     who.entity_bytes_flow(ctx, "C02.R3")
+    from . import bodyrules as BR
+    BR.exactlen_ctor_passthrough(ctx, "C02.R3.ctor")
     from . import multipart as MP
     MP.stream_frame(ctx, "C02.R3.frame")
